@@ -172,6 +172,8 @@ class Session:
             if s == "dt":
                 yield ("dt", st["d"])
                 continue
+            if s in ("eof", "reset") and env.client_is_gone:
+                continue
             if s == "eof":
                 self.trace.log("c_eof")
                 env.c_eof()
@@ -195,6 +197,8 @@ class Session:
                 self.trace.log("app_go", app=str(st["app"]), n=n)
                 env.grant(str(st["app"]), n)
             else:
+                if env.client_is_gone:
+                    continue  # a client that closed or reset its side cannot send any more
                 self.client.step(st)
             yield None
 
